@@ -93,12 +93,50 @@ Proof.
   rewrite Hn. unfold legal_char. now rewrite Hc.
 Qed.
 
+(* comments and processing instructions *)
+Lemma scan_until2 p1 p2 : forall b rest,
+  has_sub [p1; p2] (b ++ [p1]) = false ->
+  scan_until [p1; p2] (b ++ p1 :: p2 :: rest) = Some (b, rest).
+Proof.
+  induction b as [|c b IH]; intros rest H.
+  - cbn [app scan_until is_prefix]. rewrite !N.eqb_refl. reflexivity.
+  - cbn [app has_sub] in H. apply orb_false_iff in H as [H1 H2].
+    cbn [app scan_until].
+    assert (E : is_prefix [p1; p2] (c :: b ++ p1 :: p2 :: rest) = false).
+    { destruct b as [|d b]; cbn [app is_prefix] in *; exact H1 || (rewrite andb_true_r in *; exact H1). }
+    rewrite E, (IH rest H2). reflexivity.
+Qed.
+
+Lemma cd_dec_comment f k b x :
+  chars_legal b = true -> has_sub dashdash (b ++ [DASH]) = false ->
+  cd_dec (S f) k (LT :: comment_open_tail ++ b ++ dashdash ++ [GT] ++ x) = cd_dec f 0 x.
+Proof.
+  intros H1 H2. cbn [cd_dec]. change (LT =? AMP) with false. change (LT =? LT) with true. cbv iota.
+  assert (E0 : strip_prefix cdata_open_tail (comment_open_tail ++ b ++ dashdash ++ [GT] ++ x) = None) by reflexivity.
+  assert (E1 : strip_prefix comment_open_tail (comment_open_tail ++ b ++ dashdash ++ [GT] ++ x)
+               = Some (b ++ DASH :: DASH :: GT :: x)) by reflexivity.
+  rewrite E0, E1. change dashdash with [DASH; DASH]. rewrite (scan_until2 DASH DASH b (GT :: x) H2).
+  change (GT =? GT) with true. now rewrite H1.
+Qed.
+
+Lemma cd_dec_pi f k b x :
+  pi_ok b = true -> has_sub pi_close (b ++ [QMARK]) = false ->
+  cd_dec (S f) k (LT :: QMARK :: b ++ pi_close ++ x) = cd_dec f 0 x.
+Proof.
+  intros H1 H2. cbn [cd_dec]. change (LT =? AMP) with false. change (LT =? LT) with true. cbv iota.
+  assert (E0 : strip_prefix cdata_open_tail (QMARK :: b ++ pi_close ++ x) = None) by reflexivity.
+  assert (E1 : strip_prefix comment_open_tail (QMARK :: b ++ pi_close ++ x) = None) by reflexivity.
+  rewrite E0, E1. change (QMARK =? QMARK) with true. cbv iota.
+  change pi_close with [QMARK; GT] in *. change (b ++ [QMARK; GT] ++ x) with (b ++ QMARK :: GT :: x).
+  rewrite (scan_until2 QMARK GT b x H2). now rewrite H1.
+Qed.
+
 (* value and "reads as" of one non-literal piece *)
 Lemma ref_piece_cd p f k x :
   ref_piece_ok p = true ->
   cd_dec (S f) k (render_piece p ++ x) = option_map (app (piece_value p)) (cd_dec f 0 x).
 Proof.
-  destruct p as [s|n|ds|ds|b]; cbn [ref_piece_ok]; intro H; try discriminate.
+  destruct p as [s|n|ds|ds|b|b|b]; cbn [ref_piece_ok]; intro H; try discriminate.
   - (* entity *)
     destruct (assoc n predefined) as [ch|] eqn:E; [|discriminate].
     apply negb_true_iff in H.
@@ -138,6 +176,19 @@ Proof.
     cbn [render_piece piece_value].
     change ((LT :: cdata_open_tail ++ b ++ cdata_end) ++ x) with (LT :: (cdata_open_tail ++ b ++ cdata_end) ++ x).
     rewrite <- !app_assoc. now apply cd_dec_cdata.
+  - (* comment *)
+    apply andb_true_iff in H as [H1 H2]. apply negb_true_iff in H2.
+    cbn [render_piece piece_value].
+    change ((LT :: comment_open_tail ++ b ++ dashdash ++ [GT]) ++ x)
+      with (LT :: (comment_open_tail ++ b ++ dashdash ++ [GT]) ++ x).
+    rewrite <- !app_assoc. rewrite (cd_dec_comment f k b x H1 H2).
+    destruct (cd_dec f 0 x); reflexivity.
+  - (* processing instruction *)
+    apply andb_true_iff in H as [H1 H2]. apply negb_true_iff in H2.
+    cbn [render_piece piece_value].
+    change ((LT :: QMARK :: b ++ pi_close) ++ x) with (LT :: QMARK :: (b ++ pi_close) ++ x).
+    rewrite <- !app_assoc. rewrite (cd_dec_pi f k b x H1 H2).
+    destruct (cd_dec f 0 x); reflexivity.
 Qed.
 
 (* literal text *)
@@ -173,7 +224,7 @@ Lemma pieces_cd : forall ps k n,
 Proof.
   induction ps as [|p ps IH]; intros k n Hok Hlen.
   - destruct n; [cbn in Hlen; lia|reflexivity].
-  - destruct p as [s|nm|ds|ds|b].
+  - destruct p as [s|nm|ds|ds|b|b|b].
     + (* literal *)
       cbn [pieces_ok] in Hok. destruct (lit_ok k s) as [k'|] eqn:E; [|discriminate].
       rewrite render_length_lit in Hlen.
@@ -181,6 +232,14 @@ Proof.
       unfold render_pieces, pieces_value. cbn [flat_map render_piece piece_value].
       rewrite (lit_cd _ _ _ _ _ E).
       fold (render_pieces ps). rewrite (IH k' _ Hok) by lia. reflexivity.
+    + cbn [pieces_ok] in Hok. apply andb_true_iff in Hok as [Hp Hok].
+      pose proof (render_length_pos _ ps Hp). destruct n; [lia|].
+      unfold render_pieces, pieces_value. cbn [flat_map].
+      rewrite (ref_piece_cd _ _ _ _ Hp). fold (render_pieces ps). rewrite (IH 0%nat _ Hok) by lia. reflexivity.
+    + cbn [pieces_ok] in Hok. apply andb_true_iff in Hok as [Hp Hok].
+      pose proof (render_length_pos _ ps Hp). destruct n; [lia|].
+      unfold render_pieces, pieces_value. cbn [flat_map].
+      rewrite (ref_piece_cd _ _ _ _ Hp). fold (render_pieces ps). rewrite (IH 0%nat _ Hok) by lia. reflexivity.
     + cbn [pieces_ok] in Hok. apply andb_true_iff in Hok as [Hp Hok].
       pose proof (render_length_pos _ ps Hp). destruct n; [lia|].
       unfold render_pieces, pieces_value. cbn [flat_map].
@@ -207,10 +266,10 @@ Proof. intros ps H. unfold xml_chardata_decode. apply pieces_cd; [exact H|lia]. 
 (* attribute values                                                    *)
 (* ------------------------------------------------------------------ *)
 Lemma ref_piece_att p f q x :
-  ref_piece_ok p = true -> (forall b, p <> PCData b) ->
+  ref_piece_ok p = true -> (forall b, p <> PCData b) -> (forall b, p <> PComment b) -> (forall b, p <> PPI b) ->
   att_dec (S f) q (render_piece p ++ x) = option_map (app (piece_value p)) (att_dec f q x).
 Proof.
-  destruct p as [s|n|ds|ds|b]; cbn [ref_piece_ok]; intros H Hnc; try discriminate.
+  destruct p as [s|n|ds|ds|b|b|b]; cbn [ref_piece_ok]; intros H Hnc Hnm Hnp; try discriminate.
   - destruct (assoc n predefined) as [ch|] eqn:E; [|discriminate].
     apply negb_true_iff in H.
     cbn [render_piece piece_value]. rewrite E. cbn [opt_char].
@@ -242,6 +301,8 @@ Proof.
     + rewrite !mem_cons, (hex_no_semi _ Hd). reflexivity.
     + now apply ref_value_hex.
   - exfalso. now apply (Hnc b).
+  - exfalso. now apply (Hnm b).
+  - exfalso. now apply (Hnp b).
 Qed.
 
 Lemma alit_att : forall s q n x,
@@ -266,7 +327,7 @@ Proof.
   induction ps as [|p ps IH]; intros q n Hok Hlen.
   - destruct n; [cbn in Hlen; lia|reflexivity].
   - unfold apieces_ok in Hok. cbn [forallb] in Hok. apply andb_true_iff in Hok as [Hp Hok].
-    destruct p as [s|nm|ds|ds|b]; cbn [apiece_ok] in Hp; try discriminate.
+    destruct p as [s|nm|ds|ds|b|b|b]; cbn [apiece_ok] in Hp; try discriminate.
     + rewrite render_length_lit in Hlen.
       replace n with (length s + (n - length s))%nat by lia.
       unfold render_pieces, pieces_value. cbn [flat_map render_piece piece_value].
